@@ -5373,6 +5373,9 @@ class Parameterized(metaclass=ParameterizedMetaclass):
                 for w in ws if _is_foreign_method_watcher(w, self)
             ]
             if foreign or private.dynamic_watchers:
+                # the object's own watchers for dynamic dependencies are
+                # recreated by _update_deps in __setstate__
+                foreign += [w for ws in private.dynamic_watchers.values() for w in ws]
                 private = copy.copy(private)
                 private.watchers = {
                     p: {attr: [w for w in ws if not any(w is f for f in foreign)]
